@@ -120,7 +120,7 @@ class C08(Check):
     world = 'chain'
     level = 'fault_enumeration'
     design_ref = 'DESIGN.md 3.4'
-    runs = {'quick': 2000, 'thorough': 50000}
+    runs = {'quick': 2000, 'thorough': 30000}
     shrink_lists = (('ops',), ('config', 'mws'))
     rule = ('generated stacks (0-4 middlewares, app/route level, any phases) x error handler {default, debug, re-raising, '
             'broken render_error, render_error returning another error}; per stack EVERY chain position is made faulty once '
